@@ -34,6 +34,51 @@ def spec_status(n, hard, outcomes, order=None):
     return [rec(t) for t in range(n)]
 
 
+def semantic_deps(case):
+    '''(full, hard): for every task the tasks that must be final before it may start, and those
+    whose failure must skip it -- computed from the generated graphs alone.  With stages (nested
+    graph nodes, case['stages'] = list of member lists, stage k has node id n+k): depending on a
+    stage means depending on all its members (an EMPTY stage passes the dependency on to what the
+    stage itself depends on); a member of a stage depends on what the stage depends on.'''
+    n = case['n']
+    stages = case.get('stages') or []
+    hard, soft = case['hard'], case['soft']
+    if not stages:
+        return ([sorted(set(hard[t]) | set(soft[t])) for t in range(n)], [sorted(hard[t]) for t in range(n)])
+    stage_of = {}
+    for k, members in enumerate(stages):
+        for m in members:
+            stage_of[m] = k
+
+    def expand(node, kind, seen):
+        '''tasks a dependency on `node` stands for'''
+        if node < n:
+            return {node}
+        k = node - n
+        if stages[k]:
+            return set(stages[k])
+        if node in seen:
+            return set()
+        out = set()
+        for d in (hard[node] if kind == 'hard' else sorted(set(hard[node]) | set(soft[node]))):
+            out |= expand(d, kind, seen | {node})
+        return out
+
+    def direct(t, kind):
+        edges = hard[t] if kind == 'hard' else sorted(set(hard[t]) | set(soft[t]))
+        out = set()
+        for d in edges:
+            out |= expand(d, kind, frozenset())
+        if t in stage_of:
+            snode = n + stage_of[t]
+            sedges = hard[snode] if kind == 'hard' else sorted(set(hard[snode]) | set(soft[snode]))
+            for d in sedges:
+                out |= expand(d, kind, frozenset())
+        out.discard(t)
+        return sorted(out)
+    return [direct(t, 'full') for t in range(n)], [direct(t, 'hard') for t in range(n)]
+
+
 def is_cyclic(n, deps):
     color = [0] * n
 
@@ -230,16 +275,33 @@ def run_history(world, case):
     runs: [{outcomes, lost, strategy, seed}]'''
     n = case['n']
     hard, soft = case['hard'], case['soft']
-    full = [sorted(set(hard[t]) | set(soft[t])) for t in range(n)]
+    full, sem_hard = semantic_deps(case)
     world.names = {f't{t}': t for t in range(n)}
     world.exec_count = list(case.get('started0') or [0] * n)
     Env = world.env_mod.Env
     TaskStatus = world.TaskStatus
     tasks = [world.Probe(t, full[t]) for t in range(n)]
-    hard_g = world.DepGraph.from_dependency_dictionary(
-        {tasks[t]: [tasks[d] for d in hard[t]] for t in range(n)})
-    soft_g = world.DepGraph.from_dependency_dictionary(
-        {tasks[t]: [tasks[d] for d in soft[t]] for t in range(n)})
+    stages = case.get('stages') or []
+    if not stages:
+        hard_g = world.DepGraph.from_dependency_dictionary(
+            {tasks[t]: [tasks[d] for d in hard[t]] for t in range(n)})
+        soft_g = world.DepGraph.from_dependency_dictionary(
+            {tasks[t]: [tasks[d] for d in soft[t]] for t in range(n)})
+    else:
+        member = {m for ms in stages for m in ms}
+        stage_graphs = [world.DepGraph.from_dependency_dictionary(
+            {tasks[m]: [tasks[d] for d in hard[m]] for m in ms}) for ms in stages]
+        node = lambda i: tasks[i] if i < n else stage_graphs[i - n]   # noqa
+        top = [i for i in range(n) if i not in member] + [n + k for k in range(len(stages))]
+        def build(edges):
+            g = world.DepGraph()
+            for i in top:
+                g.add_node(node(i))
+            for i in top:
+                for d in edges[i]:
+                    g.add_dependency(node(i), on=node(d))
+            return g
+        hard_g, soft_g = build(hard), build(soft)
     # initial environment of the first run
     env = Env()
     for t, ent in enumerate(case.get('init') or []):
@@ -259,7 +321,7 @@ def run_history(world, case):
     clock = case.get('clock0', 0)
     results = []
     reuse_box = {}
-    cyclic = is_cyclic(n, full)
+    cyclic = is_cyclic(n, full) if not stages else False
     for irun, run in enumerate(case['runs']):
         world.outcomes = run['outcomes']
         world.run_execs = [0] * n
@@ -283,6 +345,15 @@ def run_history(world, case):
             sched_box['backend'] = backend
             sched_box['order'] = [world.names[t.name] for t in sched.full_graph.topological_sort()] \
                 if not cyclic else None
+            # the graphs the scheduler prepared (flattened): what the model is configured with
+            try:
+                sched_box['impl_deps'] = [sorted(world.names[d.name] for d in sched.full_graph.dependencies(tasks[t]))
+                                          for t in range(n)]
+                sched_box['impl_hdeps'] = [sorted(world.names[d.name] for d in sched.hard_graph.dependencies(tasks[t]))
+                                           for t in range(n)]
+            except Exception as exc:  # noqa
+                sched_box['impl_deps'] = sched_box['impl_hdeps'] = None
+                sched_box['prep_error'] = repr(exc)
             return sched.schedule(env=env)
         harness = world.harness
         # logical clock continues across runs
@@ -312,6 +383,8 @@ def run_history(world, case):
             'irun': irun,
             'env0': env0, 'started0': started0, 'clock0': case.get('clock0', 0) if irun == 0 else None,
             'order': sched_box.get('order'),
+            'impl_deps': sched_box.get('impl_deps'), 'impl_hdeps': sched_box.get('impl_hdeps'),
+            'prep_error': sched_box.get('prep_error'),
             'cyclic': cyclic,
             'trace': [[ev['tid'], ev['op'], ev['arg'], ev['times'], ev['env'], ev['enabled'],
                        ev.get('obs')] for ev in trace],
